@@ -590,15 +590,75 @@ def rule_r4(ctx, rep):
     rep.floor("stores on the validation slice", 5)
 
 
+def rule_r5(ctx, rep):
+    """the one thing validation does look at below a metadata element: it holds at most one child.  The maximum-occurrence report
+    on the metadata side of single-node validation is evaluated for a metadata node with 0..3 children."""
+    from ..condeval import guard_verdict
+    from ..model import EnumMember
+    from ..peval import PEval, PEvalUnsupported, Raised
+    from ..valslice import report_sites
+    prog = ctx.prog
+    w = ctx.world
+    meta = meta_value(ctx)
+    sl = reachable(ctx, [prog.func(NODE)])
+    mps = mode_params(ctx, sl)
+    cands = []
+    for fi in sl:
+        if fi.qname not in mps or not meta_tests(ctx, fi, meta):
+            continue
+        pairs, _ = report_sites(ctx, fi, mps[fi.qname])
+        for p in pairs:
+            if isinstance(p.code, EnumMember) and p.code.member == "MAX_OCCURRENCE_EXCEEDED":
+                cands.append((fi, p))
+    verdicts = {}
+    for k in range(4):
+        kids = [{"__obj__": True, "name": "x", "_name": "x", "children": [], "_children": []} for _ in range(k)]
+        nodeobj = {"__obj__": True, "name": meta, "_name": meta, "children": kids, "_children": kids, "content": None, "_content": None,
+                   "attributes": {}, "_attributes": {}}
+        hit = None
+        for (fi, p) in cands:
+            nodep = next((x for x in fi.params if w.types(fi).env.get(x) == "Node"), None)
+            if nodep is None:
+                continue
+            env = {nodep: nodeobj, mps[fi.qname]: None}
+            if fi.bound:
+                env[fi.params[0]] = {"__obj__": True}
+            try:
+                v = guard_verdict(ctx, fi, p.if_node, env, PEval(w))
+            except (PEvalUnsupported, Raised):
+                continue
+            if isinstance(v, tuple):
+                continue
+            rep.count("metadata occupancy verdicts")
+            hit = bool(hit) or bool(v)
+            if v:
+                verdicts.setdefault(k, (fi, p))
+        want = k > 1
+        rep.oblige(("R5", k), hit is not None and hit == want, sample={"children under metadata": k, "reported": hit, "required": want})
+        if hit is None or hit != want:
+            fi0, p0 = verdicts.get(k) or (cands[0] if cands else (prog.func(NODE), None))
+            rep.add("R5", fi0.qname, p0.append_call if p0 is not None else "metadata occupancy",
+                    f"a metadata element with {k} child{'ren' if k != 1 else ''} is {'reported' if hit else 'accepted' if hit is not None else 'not judged'} "
+                    f"(MAX_OCCURRENCE_EXCEEDED); metadata content is opaque beyond holding at most one child, so it must be "
+                    f"{'reported' if want else 'accepted'}", fi0.loc(p0.if_node) if p0 is not None else fi0.loc())
+            break
+    rep.floor("metadata occupancy verdicts", 4)
+
+
+def _rule_r6(ctx, rep):
+    from .c05_worlds import rule_worlds
+    rule_worlds(ctx, rep, "C05")
+
+
 def run(ctx, rep):
     rep.explanation = (
         "shape of the recursive walk validate.tree decided over all its paths by marker dataflow: own node validated first, "
         "with the caller's list, outside any try; one unfiltered in-order loop over the children with an unconditional recursive "
         "call; the walk depends on exactly the metadata cut-off; the metadata constant agrees across tree / _validate_children / "
         "prune; node validation dereferences children only on the non-metadata side")
-    rep.rules_run = ["R1", "R2", "R3", "R4"]
+    rep.rules_run = ["R1", "R2", "R3", "R4", "R5", "R6"]
     rep.assumptions += ["per-node verdicts are C04/C01-C03's subject; C05 decides only how they are combined"]
     only = getattr(rep, "only", None)
-    for name, fn in (("R1", rule_r1), ("R2", rule_r2), ("R3", rule_r3), ("R4", rule_r4)):
+    for name, fn in (("R1", rule_r1), ("R2", rule_r2), ("R3", rule_r3), ("R4", rule_r4), ("R5", rule_r5), ("R6", _rule_r6)):
         if only in (None, name):
             fn(ctx, rep)
